@@ -81,11 +81,27 @@ func rowID(b *bo.BoxFields) int {
 // group) that continue on the next page.
 func verify(d *doc, g *refGrid, t *bo.TableBox, page int, cont map[int]bool, rp reporter) outcome {
 	hs, vs := d.spacing()
-	cw, cp := t.ColumnWidths, t.ColumnPositions
+	cw := t.ColumnWidths
 	ncols := len(cw)
 	tx := float64(t.ContentBoxX())
 	tw := mf(t.Width)
 	th := mf(t.Height)
+	// A right-to-left table is the mirror image of the left-to-right one: column 0 is the
+	// rightmost column and a cell starts at its right edge. Every horizontal coordinate is
+	// mirrored about the middle of the table's content box, after which the clauses below (stated
+	// for a table whose column 0 is the leftmost one) apply unchanged; the messages of a
+	// right-to-left table therefore give mirrored coordinates.
+	rtl := d.rtl()
+	mirror := func(x, w float64) float64 {
+		if rtl {
+			return 2*tx + tw - x - w
+		}
+		return x
+	}
+	mnote := ""
+	if rtl {
+		mnote = " [rtl: x mirrored about the table's content box]"
+	}
 
 	var key strings.Builder
 	fmt.Fprintf(&key, "W%.2f H%.2f C", tw, th)
@@ -93,9 +109,13 @@ func verify(d *doc, g *refGrid, t *bo.TableBox, page int, cont map[int]bool, rp 
 		fmt.Fprintf(&key, "%.2f,", float64(w))
 	}
 
-	if len(cp) != ncols {
-		rp.fail("structure", fmt.Sprintf("%d column widths but %d column positions", ncols, len(cp)))
+	if len(t.ColumnPositions) != ncols {
+		rp.fail("structure", fmt.Sprintf("%d column widths but %d column positions", ncols, len(t.ColumnPositions)))
 		return outcome{key.String(), false}
+	}
+	cp := make([]float64, ncols) // left edge of every column (mirrored in a right-to-left table)
+	for i, x := range t.ColumnPositions {
+		cp[i] = mirror(float64(x), float64(cw[i]))
 	}
 
 	// ---- rows and cells as laid out -------------------------------------------------------
@@ -139,7 +159,7 @@ func verify(d *doc, g *refGrid, t *bo.TableBox, page int, cont map[int]bool, rp 
 				f := c.Box()
 				cells = append(cells, outCell{
 					ref: ref[i],
-					x:   float64(f.BorderBoxX()), y: float64(f.BorderBoxY()), w: float64(f.BorderWidth()), h: float64(f.BorderHeight()),
+					x:   mirror(float64(f.BorderBoxX()), float64(f.BorderWidth())), y: float64(f.BorderBoxY()), w: float64(f.BorderWidth()), h: float64(f.BorderHeight()),
 					cw: mf(f.Width), ch: mf(f.Height),
 					padBorderH: float64(f.PaddingLeft.V() + f.PaddingRight.V() + f.BorderLeftWidth + f.BorderRightWidth),
 					gx:         f.GridX, cs: f.Colspan, rs: f.Rowspan, gy: y, py: py,
@@ -239,11 +259,11 @@ func verify(d *doc, g *refGrid, t *bo.TableBox, page int, cont map[int]bool, rp 
 		// left edge = left edge of the first column, right edge = right edge of the last one:
 		// cells starting (ending) in one column share their left (right) edge and a spanning
 		// cell covers its columns and whatever lies between them
-		if l := float64(cp[c.gx]); !near(c.x, l) {
-			rp.fail("column-edges", fmt.Sprintf("cell %d starts in column %d: left edge %g, column starts at %g", rc.k, c.gx, c.x, l))
+		if l := cp[c.gx]; !near(c.x, l) {
+			rp.fail("column-edges", fmt.Sprintf("cell %d starts in column %d: left edge %g, column starts at %g%s", rc.k, c.gx, c.x, l, mnote))
 		}
-		if r := float64(cp[last] + cw[last]); !near(c.x+c.w, r) {
-			rp.fail("column-edges", fmt.Sprintf("cell %d ends in column %d: right edge %g, column ends at %g", rc.k, last, c.x+c.w, r))
+		if r := cp[last] + float64(cw[last]); !near(c.x+c.w, r) {
+			rp.fail("column-edges", fmt.Sprintf("cell %d ends in column %d: right edge %g, column ends at %g%s", rc.k, last, c.x+c.w, r, mnote))
 		}
 		// top edge = top of its row; bottom edge = bottom of the last row it spans
 		if !near(c.y, rows[c.py].top) {
@@ -280,7 +300,7 @@ func verify(d *doc, g *refGrid, t *bo.TableBox, page int, cont map[int]bool, rp 
 		}
 	}
 	for i := 1; i < ncols; i++ {
-		gap := float64(cp[i]) - float64(cp[i-1]+cw[i-1])
+		gap := cp[i] - (cp[i-1] + float64(cw[i-1]))
 		switch {
 		case origin[i] && origin[i-1]:
 			rp.count("adjacent-column-pairs", 1)
@@ -329,15 +349,15 @@ func verify(d *doc, g *refGrid, t *bo.TableBox, page int, cont map[int]bool, rp 
 	// not spacing is counted for columns without originating cells.
 	if ncols > 0 {
 		rp.count("tables-with-columns", 1)
-		if l := float64(cp[0]); !near(l-hs, tx) {
-			rp.fail("table-fill", fmt.Sprintf("first column starts at %g, table content box at %g, border-spacing %g", l, tx, hs))
+		if l := cp[0]; !near(l-hs, tx) {
+			rp.fail("table-fill", fmt.Sprintf("first column starts at %g, table content box at %g, border-spacing %g%s", l, tx, hs, mnote))
 		}
-		if r := float64(cp[ncols-1] + cw[ncols-1]); !near(r+hs, tx+tw) {
+		if r := cp[ncols-1] + float64(cw[ncols-1]); !near(r+hs, tx+tw) {
 			sum := 0.0
 			for _, w := range cw {
 				sum += float64(w)
 			}
-			rp.fail("table-fill", fmt.Sprintf("last column ends at %g, table content box ends at %g, border-spacing %g (table width %g, %d columns of total width %g)", r, tx+tw, hs, tw, ncols, sum))
+			rp.fail("table-fill", fmt.Sprintf("last column ends at %g, table content box ends at %g, border-spacing %g (table width %g, %d columns of total width %g)%s", r, tx+tw, hs, tw, ncols, sum, mnote))
 		}
 	}
 
